@@ -1666,6 +1666,24 @@ func BaselineKeys(p *Prog) []string {
 			return true
 		})
 	}
+	// struct fields of the product packages ("fld <pkg>.<Type>.<Field> <type>"), for renamed fields
+	for _, pk := range p.All {
+		scope := pk.Types.Scope()
+		for _, name := range scope.Names() {
+			tn, isT := scope.Lookup(name).(*types.TypeName)
+			if !isT {
+				continue
+			}
+			st, isS := tn.Type().Underlying().(*types.Struct)
+			if !isS {
+				continue
+			}
+			short := strings.TrimPrefix(pk.PkgPath, ModPath+"/")
+			for i := 0; i < st.NumFields(); i++ {
+				out = append(out, "fld\t"+short+"."+name+"."+st.Field(i).Name()+"\t"+types.TypeString(st.Field(i).Type(), func(q *types.Package) string { return q.Path() }))
+			}
+		}
+	}
 	// functions of the shell framework ("sh:<name>")
 	for _, rel := range ShellFiles {
 		if f, err := ParseShell(p, rel); err == nil {
